@@ -304,18 +304,31 @@ pub fn gen_panic_variant(rng: &mut Rng, variant: u64) -> Program {
             }
         }
     };
+    // work accepted behind the panicking operation (it never runs); its future is waited for once the panic is over:
+    // the wait must end (panic or cancellation), not hang
+    let follow: Option<HandleId> = if !matches!(variant % 10, 3 | 4 | 8) && g.rng.permille(600) { Some(g.handle()) } else { None };
+    let push_follow = |g: &mut Gen, t0: &mut Vec<Op>| {
+        if let Some(h) = follow {
+            t0.push({ let __k = OpKind::FutureDesync { o: p_obj, body: vec![], h }; g.op(__k) });
+        }
+    };
     match variant % 10 {
-        0 => t0.push({ let __k = OpKind::Desync { o: p_obj, body: y(&mut g) }; g.op(__k) }),
+        0 => {
+            t0.push({ let __k = OpKind::Desync { o: p_obj, body: y(&mut g) }; g.op(__k) });
+            push_follow(&mut g, &mut t0);
+        }
         1 => {
             let h = g.handle();
             let body = fy(&mut g, &mut env0);
             t0.push({ let __k = OpKind::FutureDesync { o: p_obj, body, h }; g.op(__k) });
+            push_follow(&mut g, &mut t0);
             t0.push({ let __k = OpKind::Detach { h }; g.op(__k) });
         }
         2 => {
             let h = g.handle();
             let gate = g.gate();
             t0.push({ let __k = OpKind::After { o: p_obj, gate, body: y(&mut g), h }; g.op(__k) });
+            push_follow(&mut g, &mut t0);
             t0.push({ let __k = OpKind::Detach { h }; g.op(__k) });
         }
         3 => t0.push({ let __k = OpKind::Sync { o: p_obj, body: y(&mut g) }; g.op(__k) }),
@@ -325,6 +338,7 @@ pub fn gen_panic_variant(rng: &mut Rng, variant: u64) -> Program {
             add_blockers(&mut g, &mut phase0_threads, &mut t0);
             t0.push({ let __k = OpKind::Yield(3); g.op(__k) });
             t0.push({ let __k = OpKind::Desync { o: p_obj, body: y(&mut g) }; g.op(__k) });
+            push_follow(&mut g, &mut t0);
             t0.push({ let __k = OpKind::Sync { o: p_obj, body: vec![] }; g.op(__k) });
         }
         6 => {
@@ -335,6 +349,7 @@ pub fn gen_panic_variant(rng: &mut Rng, variant: u64) -> Program {
             phase0_threads.push(t1);
             t0.push({ let __k = OpKind::Yield(1); g.op(__k) });
             t0.push({ let __k = OpKind::Desync { o: p_obj, body: y(&mut g) }; g.op(__k) });
+            push_follow(&mut g, &mut t0);
             t0.push({ let __k = OpKind::Sync { o: p_obj, body: vec![] }; g.op(__k) });
         }
         7 => {
@@ -344,6 +359,7 @@ pub fn gen_panic_variant(rng: &mut Rng, variant: u64) -> Program {
             let h = g.handle();
             let body = fy(&mut g, &mut env0);
             t0.push({ let __k = OpKind::FutureDesync { o: p_obj, body, h }; g.op(__k) });
+            push_follow(&mut g, &mut t0);
             t0.push({ let __k = OpKind::Await { h }; g.op(__k) });
         }
         8 => {
@@ -362,6 +378,7 @@ pub fn gen_panic_variant(rng: &mut Rng, variant: u64) -> Program {
             let h = g.handle();
             let body = fy(&mut g, &mut env0);
             t0.push({ let __k = OpKind::FutureDesync { o: p_obj, body, h }; g.op(__k) });
+            push_follow(&mut g, &mut t0);
             t0.push({ let __k = OpKind::Await { h }; g.op(__k) });
         }
     }
@@ -375,6 +392,16 @@ pub fn gen_panic_variant(rng: &mut Rng, variant: u64) -> Program {
     }
     // phase 1: every kind of call on the panicked object, ordinary programs elsewhere
     let mut t_p = vec![];
+    if let Some(h) = follow {
+        match g.rng.below(3) {
+            0 => t_p.push({ let __k = OpKind::Await { h }; g.op(__k) }),
+            1 => t_p.push({ let __k = OpKind::SyncWait { h }; g.op(__k) }),
+            _ => {
+                t_p.push({ let __k = OpKind::PollOnce { h }; g.op(__k) });
+                t_p.push({ let __k = OpKind::Await { h }; g.op(__k) });
+            }
+        }
+    }
     let n_calls = g.rng.range(1, 4);
     for _ in 0..n_calls {
         let o = p_obj;
@@ -399,6 +426,11 @@ pub fn gen_panic_variant(rng: &mut Rng, variant: u64) -> Program {
                 t_p.push({ let __k = OpKind::Await { h }; g.op(__k) });
             }
         }
+    }
+    // the last owner of the panicked object goes away while its thread is unwinding from a panic of its own: the drop
+    // can neither panic again (that would abort the process) nor wait
+    if g.rng.permille(300) {
+        t_p.push({ let __k = OpKind::DropObjPanicking { o: p_obj }; g.op(__k) });
     }
     let mut phase1_threads = vec![t_p];
     let n_threads = g.rng.range(1, 2) as usize;
